@@ -9,8 +9,10 @@
 (* together with the witnessing allocation.  Run with -workers 1.          *)
 (***************************************************************************)
 EXTENDS Optimum
-ASSUME TLCSet(1, {}) /\ TLCSet(2, <<>>)
-Mark == (mon = I.n) => /\ (iid \in TLCGet(1) \/ TLCSet(2, Append(TLCGet(2), [id |-> I.id, mode |-> I.mode, alloc |-> hist])))
-                       /\ TLCSet(1, TLCGet(1) \cup {iid})
-ReportReached == PrintT(ToJson([k |-> "Reached", items |-> TLCGet(2)]))
+ASSUME TLCSet(1, {}) /\ TLCSet(2, <<>>) /\ TLCSet(3, [i \in 1..Len(Insts) |-> -1])
+\* best score of every "animals" instance
+MarkA == (mon = I.n /\ I.mode = "animals" /\ meatUse > TLCGet(3)[iid]) => TLCSet(3, [TLCGet(3) EXCEPT ![iid] = meatUse])
+Mark == MarkA /\ ((mon = I.n /\ I.mode # "animals") => /\ (iid \in TLCGet(1) \/ TLCSet(2, Append(TLCGet(2), [id |-> I.id, mode |-> I.mode, alloc |-> hist])))
+                       /\ TLCSet(1, TLCGet(1) \cup {iid}))
+ReportReached == PrintT(ToJson([k |-> "Reached", items |-> TLCGet(2), best |-> [i \in 1..Len(Insts) |-> [id |-> Insts[i].id, mode |-> Insts[i].mode, score |-> TLCGet(3)[i]]]]))
 =============================================================================
